@@ -22,6 +22,11 @@ GEN     `tlc -simulate` behaviours of Server.tla (Gen_Server_*.cfg) are forced o
         the observable projection (started, len(conns), handlers inside, deadlines, closed flags) is compared with
         the specification's state.  Not realising a plan is never a verdict; the observed events are validated by
         Trace_Server like any other run.  The same plans are replayed in a -race build.
+REUSE   one Server value started again and again through ListenAndServe on real loopback sockets, switching transports
+        in every order (udp->tcp, tcp->udp, tcp->tcp-tls, udp->udp, ...): from the second run on the value holds both
+        srv.PacketConn and srv.Listener.  Not trace-validated (mixed transports are outside the single-transport spec;
+        the both-fields state itself is in Server.tla: pcField / lsnField, HSparePC / HSpareLsn, ShKickPC / ShCloseL in
+        either order); reported: observed deadlock (exact quiescence), leak, crash, race report.
 TV      un-gated seeded scenarios modelled on server_test.go (N in-flight queries at shutdown, start/stop race, handler
         closes, client closes early, expiring ctx, second start/shutdown, sequential restart, a failed start first --
         ActivateAndServe with nothing / a closed UDP socket to serve on, ListenAndServe with an unsupported Net, an
@@ -47,6 +52,11 @@ Mutants (checks/mutants/C13/*.diff; `cp -r /repo /tmp/x && git -C /tmp/x apply <
                                   TV  server/trace-reject:start.refused (the corrected start is refused) and the observed deadlock
                                   server/hang:ShutdownContext-after-a-failed-start, tcp / pc / udp (closed *net.UDPConn and nil);
                                   GEN the same through Gen_Server_fail / fail_pc plans (HBreak StLock StFailed ... ShRefused HFix StStarted)
+  seeded C13-10 (ShutdownContext: `switch` instead of two ifs, so only ONE of PacketConn / Listener is handled)
+                                  TV  server/trace-reject:conn.setdl:past | shutdown.unlock (Listener.Close missing on a value that holds both
+                                  fields: spare PacketConn on the tcp server, spare Listener on the packet server), observed deadlock
+                                  server/hang:ShutdownContext; REUSE server/hang:ShutdownContext-reused-<kind>-after-<first> (udp->tcp, ...);
+                                  model: Bug="switch_close" fails ShutdownTerminates on MC_Server_both_live
   plain-unlock [t]                server/crash:fatal-error-sync-Unlock-of-unlocked-RWMutex (every stage that starts a server)
   wgadd-after-go                  NOT caught: nothing observable separates `go` from `wg.Add` (no hook can sit between the
                                   two statements without rewriting them); only a negative-counter panic by scheduling luck
@@ -57,7 +67,7 @@ import vp
 
 SPEC = os.path.join(vp.VERIF, "spec")
 
-MC_QUICK = ["tcp", "pc", "twice", "reseq", "fail", "fail_pc", "tcp_live", "pc_live", "fail_live"]
+MC_QUICK = ["tcp", "pc", "twice", "reseq", "fail", "fail_pc", "both", "both_pc", "tcp_live", "pc_live", "fail_live", "both_live"]
 MC_THOROUGH = MC_QUICK + ["tcp3"]
 
 # (base cfg, Bug, INVARIANT|PROPERTY, property that must fail)
@@ -79,6 +89,7 @@ BROKEN = [
     ("twice", "no_shut_check", "PROPERTY", "ShutdownNotStartedErrors"),
     ("fail", "started_early", "PROPERTY", "FailedStartLeavesStopped"),
     ("fail_live", "started_early", "PROPERTY", "ShutdownTerminates"),
+    ("both_live", "switch_close", "PROPERTY", "ShutdownTerminates"),
 ]
 
 RESTART_QUICK = [("restart", "INVARIANT", "GracefulReturn"), ("restart", "INVARIANT", "ServeReturnsNil"),
@@ -260,6 +271,16 @@ def tv(ctx, mode, path, origin, rerun=None):
             vp.parallel([lambda r=r: one(r) for r in cands], maxpar=6)
 
 
+def reuse(ctx, binp, tag):
+    """One Server value reused across transports through ListenAndServe on real loopback sockets."""
+    n = 18 if ctx.quick else 180
+    rerun = {"kind": "reuse", "nruns": n, "seed": ctx.seed, "race": tag == "race"}
+    s = run_server(ctx, binp, ["reuse", str(n)], env={"VERIF_SEED": str(ctx.seed)}, timeout=900, case=rerun)
+    if s is not None:
+        ctx.notes["reuse_generations"] = ctx.notes.get("reuse_generations", 0) + (s.get("notes") or {}).get("reuse_generations", 0)
+        absorb(ctx, s, rerun)
+
+
 def record_tv(ctx, binp, mode, nruns, shards, tag):
     def one(k):
         out = os.path.join(ctx.out, "rec-%s-%s-%d.ndjson" % (tag, mode, k))
@@ -374,7 +395,8 @@ def restart(ctx, binp, racebin):
 
 def gen_replay(ctx, binp, racebin):
     n = 200 if ctx.quick else 10000
-    sets = [("tcp", "tcp"), ("pc", "pc"), ("twice", "tcp"), ("reseq", "tcp"), ("fail", "tcp"), ("fail_pc", "pc")]
+    sets = [("tcp", "tcp"), ("pc", "pc"), ("twice", "tcp"), ("reseq", "tcp"), ("fail", "tcp"), ("fail_pc", "pc"),
+            ("both", "tcp"), ("both_pc", "pc")]
 
     def one(cfgname, mode):
         r, vecs = ctx.tlc_vectors("Gen_Server", cfg="Gen_Server_" + cfgname, workers=1, xmx="3g", timeout=3000,
@@ -422,6 +444,7 @@ def run(ctx):
     for mode in ("tcp", "pc", "udp"):
         stages.append(lambda mode=mode: record_tv(ctx, binp, mode, runs, shards, "plain"))
         stages.append(lambda mode=mode: record_tv(ctx, racebin, mode, runs, max(1, shards // 2), "race"))
+    stages += [lambda: reuse(ctx, binp, "plain"), lambda: reuse(ctx, racebin, "race")]
     vp.parallel(stages, maxpar=10)
     ctx.assumptions += [
         "DEV1: read deadlines in the future (ReadTimeout / IdleTimeout, one hour in the harness) do not fire during a run",
@@ -463,6 +486,11 @@ def replay(ctx, path):
     elif rerun.get("kind") == "plans" and ("plan" in rerun or os.path.exists(rerun.get("file", ""))):
         plans = [rerun["plan"]] if "plan" in rerun else split_plans(vp.read_ndjson(rerun["file"]))
         replay_plans(ctx, binp, rerun["mode"], plans, "replay", timeout=1800)
+        bad = any(c["key"] == rp["key"] for c in ctx.cands)
+    elif rerun.get("kind") == "reuse":
+        s = run_server(ctx, binp, ["reuse", str(rerun["nruns"])], env={"VERIF_SEED": str(rerun["seed"])}, timeout=900, case=rerun)
+        if s is not None:
+            absorb(ctx, s, rerun)
         bad = any(c["key"] == rp["key"] for c in ctx.cands)
     elif rerun.get("kind") == "record":                        # un-gated: same seed, up to three attempts
         for k in range(3):
